@@ -23,6 +23,7 @@ Workloads:
   3. random long real-valued and batched sequences against the automata;
   4. driver loops (StopOnPlateau.optimize, MPC.forward, ICP.forward) under call-counting spies.
 """
+import contextlib
 import copy
 import sys
 
@@ -42,7 +43,10 @@ RULE = ("(1) Exhaustive prefix tree of the real controller objects over the 6-le
         "concrete loss relative to the previous one and placed a factor >= 4 away from the threshold (exact dyadic "
         "values for StopOnPlateau), for every configuration (steps 1..6) x (patience 1..4) of both controllers, "
         "complete to depth 6 (quick) / 7 (thorough): one case = one history (= one tree node), all histories of a "
-        "configuration are distinct by construction; `exhaustive: true` refers to THIS depth-bounded space only "
+        "configuration are distinct by construction (for ReduceToBason the letter 'rejected' = unchanged loss has the same concrete "
+        "losses as 'equal': the quick tier does not enumerate those identical subtrees twice (5 children per node), the thorough tier "
+        "passes the unchanged loss as a 1-element tensor instead); the start loss (2^-6 / 2^6 / 2^14 for StopOnPlateau, 2^-4 / 1 / 2^10 "
+        "for ReduceToBason) and verbose=True/False vary with the configuration; `exhaustive: true` refers to THIS depth-bounded space only "
         "(every history up to that depth; since steps <= 6 every history has stopped by depth 6). Every leaf is then "
         "continued along ONE randomly drawn suffix to length 12 (sampled, not exhaustive; only stickiness can fail "
         "there). (2) reset: every tree node of depth <= 4 (quick) / 5 (thorough) of ReduceToBason is reset and compared with a fresh "
@@ -71,6 +75,16 @@ TOL = 1e-5
 # ---------------------------------------------------------------------------------------------
 # reference automata (documentation-derived)
 # ---------------------------------------------------------------------------------------------
+class NullOut:
+    """stdout while verbose controllers run (their messages are not judged)."""
+
+    def write(self, x):
+        return len(x)
+
+    def flush(self):
+        pass
+
+
 class RefPlateau:
     """StopOnPlateau(optimizer, steps, patience, decreasing)."""
 
@@ -309,13 +323,13 @@ def compare(ck, monitor, regime, entry, hist, real, ref, was_stopped, parent_con
 # ---------------------------------------------------------------------------------------------
 # 1. prefix trees
 # ---------------------------------------------------------------------------------------------
-def tree_sop(ck, steps, patience, depth, rng, tally, stub_cls=StubLM):
+def tree_sop(ck, steps, patience, depth, rng, tally, stub_cls=StubLM, start=SOP_START, verbose=False):
     monitor, entry = "tree.StopOnPlateau", "optim.scheduler.StopOnPlateau.step"
-    regime = f"steps{steps}/pat{patience}"
+    regime = f"steps{steps}/pat{patience}/start{start:g}/verbose={verbose}"
     dec = SOP_DEC
-    opt = stub_cls(SOP_START, SOP_START, 0)
+    opt = stub_cls(start, start, 0)
     ok, root = ck.call(monitor, regime, "optim.scheduler.StopOnPlateau", pp.optim.scheduler.StopOnPlateau,
-                       opt, steps=steps, patience=patience, decreasing=dec)
+                       opt, steps=steps, patience=patience, decreasing=dec, verbose=verbose)
     if not ok:
         return
     ref0 = RefPlateau(steps, patience, dec)
@@ -371,15 +385,18 @@ def tree_sop(ck, steps, patience, depth, rng, tally, stub_cls=StubLM):
         del hist[n0:]
 
     try:
-        rec(root, ref0, SOP_START, 0, False)
+        rec(root, ref0, start, 0, False)
     except Flood:
         tally.flooded = True
 
 
-def tree_rtb(ck, steps, patience, depth, rng, tally, dec=1e-3, reset_depth=4):
+def tree_rtb(ck, steps, patience, depth, rng, tally, dec=1e-3, reset_depth=4, letters=LETTERS, start=1.0, verbose=False):
+    """letters: with 5 letters 'R' (a rejected step leaves the loss unchanged) is not enumerated separately because
+    its concrete loss sequence is the one of 'E'; with 6 letters it is the unchanged loss passed as a 1-element
+    float64 tensor instead of a float."""
     monitor, entry = "tree.ReduceToBason", "utils.ReduceToBason.step"
-    regime = f"steps{steps}/pat{patience}"
-    kw = dict(steps=steps, patience=patience, decreasing=dec, tol=TOL)
+    regime = f"steps{steps}/pat{patience}/start{start:g}/verbose={verbose}"
+    kw = dict(steps=steps, patience=patience, decreasing=dec, tol=TOL, verbose=verbose)
     ok, root = ck.call(monitor, regime, "utils.ReduceToBason", pp.utils.ReduceToBason, **kw)
     if not ok:
         return
@@ -387,16 +404,17 @@ def tree_rtb(ck, steps, patience, depth, rng, tally, dec=1e-3, reset_depth=4):
     hist = []
     if not cont_of(root):
         report(ck, monitor, regime, entry, "not_continual_initially", hist, root, ref0)
+    nl = len(letters)
 
     def apply(real, ref, letter, prev):
         new = rtb_letter(letter, prev, dec, TOL)
-        real.step(new)
+        real.step(torch.tensor([new], dtype=torch.float64) if letter == "R" else new)
         ref.step(new)
         return new
 
     def rec(real, ref, prev, d, was_stopped):
         pc = cont_of(real)
-        for letter in LETTERS:
+        for letter in letters:
             r2, f2 = copy.deepcopy(real), copy.copy(ref)
             hist.append(letter)
             try:
@@ -424,7 +442,7 @@ def tree_rtb(ck, steps, patience, depth, rng, tally, dec=1e-3, reset_depth=4):
     def suffix(real, ref, prev, d, was_stopped):
         n0 = len(hist)
         while d < 12:
-            letter = LETTERS[int(rng.integers(0, 6))]
+            letter = letters[int(rng.integers(0, nl))]
             hist.append(letter)
             pc = cont_of(real)
             prev = apply(real, ref, letter, prev)
@@ -436,7 +454,7 @@ def tree_rtb(ck, steps, patience, depth, rng, tally, dec=1e-3, reset_depth=4):
         del hist[n0:]
 
     try:
-        rec(root, ref0, 1.0, 0, False)
+        rec(root, ref0, start, 0, False)
     except Flood:
         tally.flooded = True
 
@@ -564,9 +582,12 @@ def random_rtb(ck, rng, n_seq):
         nb = {"float": 1, "t0-f64": 1, "t0-f32": 1, "b1-f64": 1, "b3-f64": 3, "b3-f32": 3, "b2x2-f64": 4}[form]
         length = int(rng.integers(12, 60 if ck.tier == "quick" else 200))
         kw = dict(steps=steps, patience=patience, decreasing=dec, tol=tol)
-        ok, real = ck.call(monitor, form, "utils.ReduceToBason", pp.utils.ReduceToBason, **kw)
+        verbose = bool(rng.random() < 0.3)
+        ok, real = ck.call(monitor, form, "utils.ReduceToBason", pp.utils.ReduceToBason, verbose=verbose, **kw)
         if not ok:
             continue
+        if verbose:
+            ck.mark("random.ReduceToBason/verbose")
         ref = RefBason(**kw)
         prev = 10.0 ** rng.uniform(-1, 3, nb)
         probs = np.array([0.45, 0.33, 0.12 if nb > 1 else 0.0, 0.03, 0.07 if nb > 1 else 0.0])
@@ -641,11 +662,16 @@ def random_sop(ck, rng, n_seq):
         mk = (lambda v: float(v)) if form == "float" else \
              (lambda v: torch.tensor(float(v), dtype=torch.float32 if form.endswith("f32") else torch.float64))
         unit = max(dec, 0.125)
-        prev = float(rng.integers(200, 400)) * 0.25
+        # loss scale away from 1 as well: ~1e-2 (the absolute steps then drive the loss negative), ~1e2, ~1e4
+        prev = float(rng.integers(200, 400)) * 0.25 * float(rng.choice([2.0 ** -12, 1.0, 2.0 ** 7]))
+        verbose = bool(rng.random() < 0.5)
         opt = stub(mk(prev), mk(prev), 0)
-        ok, real = ck.call(monitor, form, "optim.scheduler.StopOnPlateau", pp.optim.scheduler.StopOnPlateau, opt, **kw)
+        ok, real = ck.call(monitor, form, "optim.scheduler.StopOnPlateau", pp.optim.scheduler.StopOnPlateau, opt,
+                           verbose=verbose, **kw)
         if not ok:
             continue
+        if verbose:
+            ck.mark("random.StopOnPlateau/verbose")
         ref = RefPlateau(**kw)
         hist, was_stopped, good = [], False, True
         for i in range(length):
@@ -719,7 +745,7 @@ def drive_optimize(ck, rng, n):
         else:
             strat = pp.optim.strategy.Constant(damping=1e-6 if which == "LM-small-damping" else 1e2)
             opt = pp.optim.LM(net, strategy=strat)
-        sched = pp.optim.scheduler.StopOnPlateau(opt, steps=steps, patience=patience, decreasing=dec)
+        sched = pp.optim.scheduler.StopOnPlateau(opt, steps=steps, patience=patience, decreasing=dec, verbose=bool(i % 2))
         ref = RefPlateau(steps, patience, dec)
         log = {"cont_before_call": [], "trace": [], "sched_steps": 0, "ref_stop_at": None, "ref_cause": (), "ambiguous": False}
         orig_step, orig_sstep = opt.step, sched.step
@@ -792,7 +818,7 @@ def drive_mpc(ck, rng, n):
         x0 = torch.as_tensor(rng.standard_normal((1, ns)))
         try:
             lti = pp.module.LTI(A, B, C, D, c1, c2)
-            stepper = pp.utils.ReduceToBason(steps=steps, patience=patience, decreasing=1e-3, tol=tol)
+            stepper = pp.utils.ReduceToBason(steps=steps, patience=patience, decreasing=1e-3, tol=tol, verbose=bool(i % 2))
             mpc = pp.module.MPC(lti, Q, p, T, stepper=stepper)
         except Exception as e:
             ck.violation(monitor, regime, "module.MPC", "raised:" + type(e).__name__, {"exc": repr(e)[:300]})
@@ -855,7 +881,7 @@ def drive_icp(ck, rng, n):
         tf = lie.random_group("SE3", rng, nb, torch.float64, max_angle=0.3, t_scale=0.1)
         tf = pp.LieTensor(tf.tensor().reshape(batch + (7,)), ltype=pp.SE3_type)
         tgt = tf.unsqueeze(-2).Act(src) + 0.01 * torch.as_tensor(rng.standard_normal(batch + (npts, 3)))
-        stepper = pp.utils.ReduceToBason(steps=steps, patience=patience, decreasing=1e-3, tol=tol)
+        stepper = pp.utils.ReduceToBason(steps=steps, patience=patience, decreasing=1e-3, tol=tol, verbose=bool(i % 2))
         try:
             icp = pp.module.ICP(stepper=stepper)
         except Exception as e:
@@ -904,12 +930,19 @@ def drive_icp(ck, rng, n):
 
 # ---------------------------------------------------------------------------------------------
 def run(ck):
+    with contextlib.redirect_stdout(NullOut()):         # verbose controllers print; the messages are not judged
+        _run(ck)
+
+
+def _run(ck):
     thorough = ck.tier == "thorough"
     bad = automata_selftest()
     if bad:
         ck.inconclusive_because("reference automata fail their hand-written traces: " + ", ".join(bad))
         return
     depth = 7 if thorough else 6
+    rtb_letters = LETTERS if thorough else LETTERS[:5]
+    reset_depth = 5 if thorough else 4
 
     # ---- 3: random sequences
     nseq = 1500 if thorough else 250
@@ -923,11 +956,14 @@ def run(ck):
     drive_icp(ck, ck.rng("drive-icp"), nd)
 
     # ---- 1+2: prefix trees (work items = controller x configuration, split over the shards)
-    # ReduceToBason items cost ~4x a StopOnPlateau item: deal them from opposite ends of the shard list
+    # ReduceToBason items cost several StopOnPlateau items: deal them from opposite ends of the shard list.
+    # Loss scale (start value) and verbose vary with the configuration index.
     cfgs = [(s, p) for s in range(1, 7) for p in range(1, 5)]
-    items = [("RtB", s, p, j % ck.nshards) for j, (s, p) in enumerate(cfgs)] + \
-            [("SoP", s, p, (ck.nshards - 1 - j) % ck.nshards) for j, (s, p) in enumerate(cfgs)]
-    for c, s, p, owner in items:
+    items = [("RtB", s, p, j % ck.nshards, j) for j, (s, p) in enumerate(cfgs)] + \
+            [("SoP", s, p, (ck.nshards - 1 - j) % ck.nshards, j) for j, (s, p) in enumerate(cfgs)]
+    n_sop = sum(6 ** l for l in range(1, depth + 1))
+    n_rtb = sum(len(rtb_letters) ** l for l in range(1, depth + 1))
+    for c, s, p, owner, j in items:
         if owner != ck.shard:
             continue
         if ck.n_violations > FLOOD:
@@ -936,12 +972,16 @@ def run(ck):
         tally = Tally()
         trng = ck.rng(f"tree/{c}/{s}/{p}")
         if c == "SoP":
-            tree_sop(ck, s, p, depth, trng, tally, StubLM)
-            mon = "tree.StopOnPlateau"
+            start, verbose = (2.0 ** 6, 2.0 ** -6, 2.0 ** 14)[j % 3], bool(j % 2)
+            tree_sop(ck, s, p, depth, trng, tally, StubLM, start=start, verbose=verbose)
+            mon, expected = "tree.StopOnPlateau", n_sop
         else:
-            tree_rtb(ck, s, p, depth, trng, tally, reset_depth=5 if thorough else 4)
-            mon = "tree.ReduceToBason"
-        expected = sum(6 ** l for l in range(1, depth + 1))
+            start, verbose = (1.0, 2.0 ** 10, 2.0 ** -4)[j % 3], j % 6 == 5
+            tree_rtb(ck, s, p, depth, trng, tally, reset_depth=reset_depth, letters=rtb_letters, start=start, verbose=verbose)
+            mon, expected = "tree.ReduceToBason", n_rtb
+        if verbose:
+            ck.mark(mon + "/verbose")
+        ck.mark(f"{mon}/start{start:g}")
         if tally.flooded:
             ck.note_add("tree_configurations_cut_short_after_violation_flood", 1)
         elif tally.nodes != expected:
@@ -956,31 +996,35 @@ def run(ck):
         ck.note_add("tree_histories_enumerated", tally.nodes)
         ck.note_add("tree_configurations_swept", 1)
     ck.note("tree_depth", depth)
-    ck.note("tree_space", "every history over the 6-letter alphabet up to depth %d for every (steps 1..6) x (patience 1..4) "
-                          "of both controllers; exhaustive refers to this depth-bounded space only; suffixes to length 12 "
-                          "are sampled" % depth)
+    ck.note("tree_space", "every concrete loss history up to depth %d over the abstract alphabet {D,d,E,I,B,R} for every (steps 1..6) x "
+                          "(patience 1..4) of both controllers (ReduceToBason: %s); exhaustive refers to this depth-bounded space only; "
+                          "the suffixes to length 12 are sampled (one per leaf)"
+            % (depth, "R = unchanged loss passed as a 1-element tensor" if thorough else
+               "R has the same concrete losses as E and is not enumerated twice: 5 children per node"))
     ck.exhaustive = ck.n_violations <= FLOOD
     # a GN-like stub (no reject_count attribute) on a few configurations as well
     extra = [(s, p) for s in (2, 6) for p in (1, 3)]
     for idx, (s, p) in enumerate(extra):
         if ck.mine(idx) and ck.n_violations <= FLOOD:
             tally = Tally()
-            tree_sop(ck, s, p, min(depth, 5), ck.rng(f"treeGN/{s}/{p}"), tally, StubGN)
+            tree_sop(ck, s, p, min(depth, 5), ck.rng(f"treeGN/{s}/{p}"), tally, StubGN, verbose=bool(idx % 2))
             ck.count("tree.StopOnPlateau", f"steps{s}/pat{p}/no-reject_count-attribute", n=tally.nodes, key=("GN", s, p))
 
     # ---- required regimes / floors
     for mon in ("tree.StopOnPlateau", "tree.ReduceToBason"):
-        ck.require(f"{mon}/first-stop:budget", f"{mon}/first-stop:patience", f"{mon}/first-stop:budget+patience")
+        ck.require(f"{mon}/first-stop:budget", f"{mon}/first-stop:patience", f"{mon}/first-stop:budget+patience",
+                   f"{mon}/verbose")
     ck.require("tree.StopOnPlateau/first-stop:rejected", "tree.ReduceToBason/first-stop:tol",
+               "tree.StopOnPlateau/start64", "tree.StopOnPlateau/start0.015625", "tree.StopOnPlateau/start16384",
                "reset/after-plateau-steps", "reset/after-plateau-steps/negative-first-loss",
                "random.ReduceToBason/first-stop:budget", "random.ReduceToBason/first-stop:patience",
                "random.ReduceToBason/first-stop:tol", "random.ReduceToBason/batched-with-some-below-tol",
+               "random.ReduceToBason/verbose", "random.StopOnPlateau/verbose",
                "random.StopOnPlateau/first-stop:budget", "random.StopOnPlateau/first-stop:patience",
                "random.StopOnPlateau/first-stop:rejected", "driver.MPC/budget-binding", "driver.ICP/budget-binding")
-    n_tree = sum(6 ** l for l in range(1, depth + 1))
-    ck.floor("tree.StopOnPlateau", 24 * n_tree)
-    ck.floor("tree.ReduceToBason", 24 * n_tree)
-    ck.floor("reset.ReduceToBason", 24 * sum(6 ** l for l in range(1, (5 if thorough else 4) + 1)))
+    ck.floor("tree.StopOnPlateau", 24 * n_sop)
+    ck.floor("tree.ReduceToBason", 24 * n_rtb)
+    ck.floor("reset.ReduceToBason", 24 * sum(len(rtb_letters) ** l for l in range(1, reset_depth + 1)))
     ck.floor("random.ReduceToBason", 200)
     ck.floor("random.StopOnPlateau", 200)
     ck.floor("driver.optimize", 20)
